@@ -1,6 +1,7 @@
 package main
 
 import (
+	"context"
 	stdjson "encoding/json"
 	"fmt"
 	"math/rand"
@@ -223,6 +224,24 @@ func c14E2E(c *Ctx, rng *rand.Rand) {
 				gb, e1 := c14Marshal(s.Elem().Interface())
 				sb, e2 := stdjson.Marshal(s.Elem().Interface())
 				c.Oracle("e2e/family-enc", fc.t.String(), fmt.Sprintf("%s err=%v", gb, e1), string(sb), e1 == nil && e2 == nil && string(gb) == string(sb), "")
+			}
+		}
+		// one field query shared by several types: each type's filtered program is its own
+		{
+			q, _ := json.BuildFieldQuery("F0000", "F0001", "F0002", "F0003", "D000", "D001", "D002", "D003")
+			ctx := json.SetFieldQueryToContext(context.Background(), q)
+			for _, i := range rng.Perm(4) {
+				v := c14Vals[i]
+				want := fmt.Sprintf(`{"F%04d":%d}`, i, i)
+				got, err, pan := safeMarshal(func() ([]byte, error) { return json.MarshalContext(ctx, v) })
+				c.Oracle("e2e/query-compiled", fmt.Sprintf("%T under a query naming four types' fields", v), fmt.Sprintf("%s err=%v panic=%s", got, err, pan), want, pan == "" && err == nil && string(got) == want, "")
+			}
+			for _, i := range rng.Perm(4) {
+				v := reflect.New(dyn[i])
+				v.Elem().Field(0).SetInt(int64(i))
+				want := fmt.Sprintf(`{"D%03d":%d}`, i, i)
+				got, err, pan := safeMarshal(func() ([]byte, error) { return json.MarshalContext(ctx, v.Interface()) })
+				c.Oracle("e2e/query-dynamic", fmt.Sprintf("%s under a query naming four types' fields", dyn[i]), fmt.Sprintf("%s err=%v panic=%s", got, err, pan), want, pan == "" && err == nil && string(got) == want, "")
 			}
 		}
 		for i, t := range dyn {
